@@ -385,6 +385,10 @@ impl<T: Copy> Buffer<T> {
     ///
     /// Will only be called from the read buffer.
     pub(in crate::circular_buffer) fn consume(&self, n: usize) {
+        if n == 0 {
+            // Nothing consumed. In particular all tags stay.
+            return;
+        }
         let (lock, cv) = &*self.state;
         let mut s = lock.lock().unwrap();
         assert!(
